@@ -98,6 +98,25 @@ func unitServes(u *Unit, prop string) bool {
 			}
 		}
 	}
+	for _, ls := range c.Steps {
+		for _, cl := range ls {
+			if hasProp(cl.Props, prop) {
+				return true
+			}
+		}
+	}
+	for _, ls := range c.Before {
+		for _, cl := range ls {
+			if hasProp(cl.Props, prop) {
+				return true
+			}
+		}
+	}
+	for _, cl := range c.AtUnlock {
+		if hasProp(cl.Props, prop) {
+			return true
+		}
+	}
 	return false
 }
 
@@ -233,7 +252,27 @@ func cmdCheck(args []string) int {
 			fmt.Printf("VIOLATION property=%s replay=%s no-failing-input-found\n", prop, rp)
 			continue
 		}
-		fuc = append(fuc, map[string]interface{}{"unit": u.Name, "ssa_instructions": r.Instrs, "obligations": len(r.Obls), "loops_with_invariants": r.LoopsAnnot, "secs": round2(r.Secs), "vacuity": r.Vacuity})
+		fe := map[string]interface{}{"unit": u.Name, "ssa_instructions": r.Instrs, "obligations": len(r.Obls), "loops_with_invariants": r.LoopsAnnot, "secs": round2(r.Secs), "vacuity": r.Vacuity}
+		if len(r.DeadReturns) > 0 {
+			var ps []string
+			for _, i := range r.DeadReturns {
+				if i-1 < len(r.Ex.returnPos) {
+					ps = append(ps, r.Ex.returnPos[i-1])
+				}
+			}
+			sort.Strings(ps)
+			fe["return_sites_unreachable_under_the_contracts"] = ps
+		}
+		fuc = append(fuc, fe)
+		// a loop whose back edge is unreachable under the assumptions has a vacuous body: every obligation in it would
+		// be discharged for the wrong reason (contradictory contracts). None exists on the unchanged tree.
+		sort.Strings(r.DeadBack)
+		for _, db := range r.DeadBack {
+			viol++
+			nm := u.Name + "#vacuity." + strings.ReplaceAll(strings.Fields(db)[0], " ", "")
+			rp := writeReplay(root, prop, nm, map[string]interface{}{"obligation": nm, "unit": u.Name, "note": "vacuity guard: " + db + " is unreachable under the preconditions, invariants and assumed callee contracts; the obligations of that loop body would hold vacuously"})
+			fmt.Printf("VIOLATION property=%s replay=%s no-failing-input-found\n", prop, rp)
+		}
 		loopsAnnot += r.LoopsAnnot
 		coverAll++
 		if r.Vacuity == "ok" {
@@ -243,6 +282,9 @@ func cmdCheck(args []string) int {
 			viol++
 			rp := writeReplay(root, prop, u.Name+"#vacuity", map[string]interface{}{"obligation": u.Name + "#vacuity", "unit": u.Name, "note": r.Vacuity})
 			fmt.Printf("VIOLATION property=%s replay=%s no-failing-input-found\n", prop, rp)
+		}
+		for _, n := range w.renames[u.C] {
+			trusted[n] = true
 		}
 		for k := range r.Ex.used {
 			if !strings.HasPrefix(k, "icmp.bodytag") {
